@@ -1,19 +1,25 @@
 #!/venv/bin/python
 """tools/mutate.py <file-relative-to-/repo> <old> <new> -- <check args...>
-Apply a textual mutation to /repo, run ./check, ALWAYS revert (git checkout)."""
-import subprocess, sys
+
+Try a textual mutation WITHOUT touching /repo: copies /repo/xdsl into a private temp dir, applies the
+replacement there (first occurrence), runs ./check with VERIF_REPO pointing at the copy, removes the copy.
+(sys.path entries take precedence over the editable-install finder, so the copy is what gets imported.)"""
+import os, shutil, subprocess, sys, tempfile
 i = sys.argv.index('--')
 f, old, new = sys.argv[1:4]
-p = '/repo/' + f
-s = open(p).read()
-assert s.count(old) >= 1, 'pattern not found'
-open(p, 'w').write(s.replace(old, new, 1))
+tmp = tempfile.mkdtemp(prefix='verif-mut-')
 try:
-    r = subprocess.run(['/verif/check'] + sys.argv[i+1:], capture_output=True, text=True)
-    out = r.stdout.strip().splitlines()
-    for l in out:
-        if l.startswith('VIOLATION') or l.startswith('  what') or l.startswith('['):
+    shutil.copytree('/repo/xdsl', os.path.join(tmp, 'xdsl'), ignore=shutil.ignore_patterns('__pycache__'))
+    p = os.path.join(tmp, f)
+    s = open(p).read()
+    if s.count(old) < 1:
+        print('pattern not found'); sys.exit(3)
+    open(p, 'w').write(s.replace(old, new, 1))
+    env = dict(os.environ, VERIF_REPO=tmp)
+    r = subprocess.run(['/verif/check'] + sys.argv[i+1:], capture_output=True, text=True, env=env)
+    for l in r.stdout.strip().splitlines():
+        if l.startswith(('VIOLATION', 'KNOWN', '  what', '  signature', '[')):
             print(l)
-    print('exit', r.returncode, r.stderr[-500:] if r.returncode == 2 else '')
+    print('exit', r.returncode, r.stderr[-1500:] if r.returncode == 2 else '')
 finally:
-    subprocess.run(['git', '-C', '/repo', 'checkout', '--', f])
+    shutil.rmtree(tmp, ignore_errors=True)
